@@ -475,6 +475,8 @@ CONSTANTS = [
     "{% for a in x %}{% call m() %}{% break %}{% endcall %}{% endfor %}", "{% for a in x %}{% filter upper %}{% break %}{% endfilter %}{% endfor %}",
     "{% for a in x %}{% set b %}{% continue %}{% endset %}{% endfor %}", "{% for a in x recursive %}{% break %}{% endfor %}",
     "{% for a in x %}{% block b %}{% break %}{% endblock %}{% endfor %}", "{% for a in x %}{% if a %}{% break %}{% endif %}{% endfor %}",
+    "{% call m(caller=1) %}{% endcall %}", "{% for a in x %}{{ f(_loop_vars=1) }}{% endfor %}",
+    "{% block b %}{{ f(_block_vars=1) }}{% endblock %}", "{% for a in x %}{{ loop(a, _loop_vars=1) }}{{ a|f(_loop_vars=1) }}{% endfor %}",
     "{{ 1e999 }}", "{{ -1e999 }}", "{{ 1e999 - 1e999 }}", "{{ 1e999|string }}", "{{ [1e999] }}", "{{ {1e999: 1} }}",
     "{{ (1e999, -1e999) }}", "{{ 1e999 * 0 }}", "{{ 1e308 * 10 }}", "{{ 1e-400 }}", "{{ 9" + "9" * 5000 + " }}",
     "{{ 1" + "0" * 4400 + " }}", "{{ 0x" + "f" * 4000 + " }}", "{{ 1" + "0" * 4400 + " + 1 }}", "{{ 1" + "0" * 5000 + "|string }}",
